@@ -11,7 +11,8 @@
      F = (sleaf L) | (sslice Lproto (L ...)) | (sarray Lproto (L ...)) | (sstruct ((xNAME xTAG sEXPORTED F) ...))
    observations:
      round trip: (ENC DEC)   ENC = (sok xB) | serr | spanic    DEC = (sval X) | serr | spanic | sskip
-     decode:     DEC          X = snil | (svals ...) sorted by key | F | L                         *)
+     decode:     DEC          X = snil | (svals ...) sorted by key | F | L
+     a form decode into a struct that fails is observed as (serr F): the content afterwards *)
 From Coq Require Import Strings.String Strings.Byte.
 From Coq Require Import List Arith NArith ZArith Bool Lia.
 From Verif Require Import Base.Bytes Base.Val Model.Strconv Model.UrlQuery Model.PlainCodec Model.FormCodec.
@@ -200,6 +201,19 @@ Definition enc_obs (o : outcome bytes) : val :=
 Definition dec_obs {A} (pr : A -> val) (o : outcome A) : val :=
   match o with Ok a => VL [vsym "val"; pr a] | Err => vsym "err" | Panic => vsym "panic" end.
 
+(* form decode: for a struct destination the content afterwards is observed on error too *)
+Definition form_dec_obs (data : bytes) (dst : fdst) : val :=
+  match dst with
+  | TStruct fs =>
+      let (fs', st) := form_unmarshal_struct_st data fs in
+      match st with
+      | Ok _ => VL [vsym "val"; val_of_fval (FStruct fs')]
+      | Err => VL [vsym "err"; val_of_fval (FStruct fs')]
+      | Panic => vsym "panic"
+      end
+  | _ => dec_obs val_of_fres (form_unmarshal data dst)
+  end.
+
 Definition run (inp : val) : option val :=
   match inp with
   | VL [VS c; a; b] =>
@@ -208,7 +222,7 @@ Definition run (inp : val) : option val :=
         | Some src, Some dst =>
             let e := form_marshal src in
             let d := match e with
-                     | Ok enc => dec_obs val_of_fres (form_unmarshal enc dst)
+                     | Ok enc => form_dec_obs enc dst
                      | _ => vsym "skip"
                      end in
             Some (VL [enc_obs e; d])
@@ -216,7 +230,7 @@ Definition run (inp : val) : option val :=
         end
       else if is c "formdec" then
         match fdst_of_val a, b with
-        | Some dst, VB data => Some (dec_obs val_of_fres (form_unmarshal data dst))
+        | Some dst, VB data => Some (form_dec_obs data dst)
         | _, _ => None
         end
       else if is c "plain" then
